@@ -238,20 +238,19 @@ Fixpoint build (c : con) (obj : val) (cx : ctx) (p : path) (o : ostream) {struct
       let* n := eval_int cx len in
       match int_of_val obj with
       | Some z =>
-          (* integer2bytes(obj, length): ValueError is not caught *)
-          if (n <? 1)%Z then Err EValue None else
+          (* integer2bytes(obj, length): its ValueError is reported as IntegerError *)
+          if (n <? 1)%Z then raise EInteger p else
           if (65536 <? n)%Z then unsupported else
           match integer2bytes z (Z.to_nat n) false with
           | Some d => let* o' := owrite o d n p in Ok (VBytes d, o')
-          | None => Err EValue None
+          | None => raise EInteger p
           end
       | None => let* o' := write_val o obj n p in Ok (obj, o')
       end
   | CGreedyBytes =>
       match obj with
       | VBytes d => let* o' := owrite o d (Z.of_nat (length d)) p in Ok (obj, o')
-      | VStr _ | VList _ | VDict _ | VEnum _ _ => raise EString p
-      | _ => type_error       (* len(obj) *)
+      | _ => raise EString p      (* anything that is not bytes / bytearray *)
       end
   | CFlag =>
       let* o' := owrite o [if truthy obj then x01 else x00] 1 p in Ok (obj, o')
@@ -287,8 +286,7 @@ Fixpoint build (c : con) (obj : val) (cx : ctx) (p : path) (o : ostream) {struct
                    | VInt _ | VBool _ => Ok obj
                    | VStr cps => match label_value table cps with Some z => Ok (VInt z) | None => raise EMapping p end
                    | VEnum l _ => match label_value table (cps_of_name l) with Some z => Ok (VInt z) | None => raise EMapping p end
-                   | VList _ | VDict _ => type_error
-                   | _ => raise EMapping p
+                   | _ => raise EMapping p      (* unknown or unhashable *)
                    end in
       let* (_, o') := build c' obj2 cx p o in Ok (obj, o')
   | CFlagsEnum c' table =>
